@@ -578,13 +578,30 @@ func modelHexEncode(p *Path, fn *ssa.Function, a []Value) Value {
 			out = append(out, int64(hexdigits[(x>>4)&15]), int64(hexdigits[x&15]))
 		case *Term:
 			for _, nib := range []*Term{tt.Extract(x, 7, 4), tt.Extract(x, 3, 0)} {
-				n8 := tt.Zext(nib, 8)
-				lt := tt.Cmp(OpUlt, n8, tt.Const(BV(8), 10))
-				out = append(out, termOrInt(tt.Ite(lt, tt.Bin(OpAdd, n8, tt.Const(BV(8), '0')), tt.Bin(OpAdd, n8, tt.Const(BV(8), 'a'-10))), intInfo{8, false}))
+				out = append(out, termOrInt(tt.HexNib(nib), intInfo{8, false}))
 			}
 		}
 	}
 	return mkStr(out)
+}
+
+// digestNibble recognises a hex digit of a blake3 digest: HexNib(extract(hi,lo, H(args))).
+func digestNibble(v Value) (h *Term, lo int, ok bool) {
+	t, isT := v.(*Term)
+	if !isT || t.Op != OpHexNib {
+		return nil, 0, false
+	}
+	e := t.Args[0]
+	// extract(3,0 | 7,4) of extract(hi,lo of UF)
+	off := 0
+	for e.Op == OpExtract {
+		off += e.Lo
+		e = e.Args[0]
+	}
+	if e.Op != OpUF || !strings.HasPrefix(e.Name, "blake3_") {
+		return nil, 0, false
+	}
+	return e, off, true
 }
 
 // modelBlake3: BLAKE3-256 as an uninterpreted function per input length; on
